@@ -67,31 +67,44 @@ Print Assumptions C09_order_perm.
    is over after at most poll_bound further steps of the master, whatever else
    is scheduled in between; it then has returned the complete ordered list or
    raised.  poll_bound = 8 * (records in the result queue + items in the log
-   queues) + 7. *)
-Theorem C09_loud_gather : forall (R : Type) (np : nat) (wres : nat -> res (list R))
+   queues) + 7.  PARTIAL: guard "no result record is stuck half-way in the
+   result queue" (no_partial), see C09_loud_refuted. *)
+Theorem C09_loud_gather_partial : forall (R : Type) (np : nat) (wres : nat -> res (list R))
     (r0 : list R) (s1 s2 : list action) (w : world) (m : mst),
   exec np wres s1 (init r0) = Run w m ->
   (forall p, 1 <= p <= np -> exitc (wks w p) <> None) ->
+  (forall p, 1 <= p <= np -> pc (wks w p) <> WPutting) ->
   8 * (length (rq w) + list_sum (map (fun p => length (lq (wks w p))) (seq 1 np))) + 7
     <= length (filter is_master s2) ->
   exists o, exec np wres (s1 ++ s2) (init r0) = Fin o /\
     (forall r, o = Done r ->
        exists rs, Forall2 (fun p x => wres p = Ok x) (seq 1 np) rs /\ r = r0 ++ concat rs).
 Proof. exact @gather_loud. Qed.
-Print Assumptions C09_loud_gather.
+Print Assumptions C09_loud_gather_partial.
 
-Theorem C09_loud : forall (A R : Type) (f : A -> res R) (args : list A) (ncpu : Z)
+Theorem C09_loud_partial : forall (A R : Type) (f : A -> res R) (args : list A) (ncpu : Z)
     (s1 s2 : list action) (r0 : list R) (w : world) (m : mst),
   args <> [] -> (1 < ncpu)%Z ->
   mapM f (chunk args (Z.to_nat ncpu) 0) = Ok r0 ->
   exec (Z.to_nat ncpu - 1) (fun pid => mapM f (chunk args (Z.to_nat ncpu) pid)) s1 (init r0)
     = Run w m ->
   quiescent (Z.to_nat ncpu - 1) w ->
+  no_partial (Z.to_nat ncpu - 1) w ->
   poll_bound (Z.to_nat ncpu - 1) w <= n_master s2 ->
   exists o, parallelize f args ncpu (s1 ++ s2) = Some o /\
             (forall r, o = Done r -> mapM f args = Ok r).
 Proof. exact @parallelize_loud. Qed.
-Print Assumptions C09_loud.
+Print Assumptions C09_loud_partial.
+
+(* ... and the guard is needed (OPEN FINDING C09-hang-killed-while-sending-result): a worker that is killed
+   while its result record is only partly in the pipe (records larger than the pipe capacity) has ended, but the
+   master stays blocked inside rqueue.get(block=False) for every number of further steps *)
+Theorem C09_loud_refuted : forall n,
+  exists w m,
+    exec 1 wres2 (sched_midput ++ repeat Master n) (init [0]) = Run w m /\
+    exitc (wks w 1) = Some (-9)%Z /\ pc (wks w 1) = WPutting.
+Proof. exact midput_refuted. Qed.
+Print Assumptions C09_loud_refuted.
 
 (* a task of the master's own chunk raises: the call raises, under every schedule *)
 Theorem C09_master_raises : forall (A R : Type) (f : A -> res R) (args : list A) (ncpu : Z)
@@ -178,35 +191,40 @@ Print Assumptions C09_fixed_on_b.
 (* FAIR SCHEDULES.  The hypothesis "every child has ended" of C09_loud follows
    from a condition on the schedule alone: every child process either is run to
    the end of its program (result record, end marker, regular end - possible
-   when none of its tasks raises) or dies / is killed at some point (exception,
-   signal, an external watchdog).  After such a schedule and poll_bound master
+   when none of its tasks raises), reaches its raising task (ARaise: the
+   exception ends worker_wrapper and the process with exit code 1 - a modelled
+   transition, fix cdc2ef8) or dies / is killed at some point (signal, hard
+   exit, an external watchdog).  PARTIAL: same guard as C09_loud_partial.  After such a schedule and poll_bound master
    steps the call is over, with the complete list or an error. *)
-Theorem C09_fair_loud_gather : forall (R : Type) (np : nat) (wres : nat -> res (list R))
+Theorem C09_fair_loud_gather_partial : forall (R : Type) (np : nat) (wres : nat -> res (list R))
     (r0 : list R) (s1 s2 : list action) (w : world) (m : mst),
   (forall p, 1 <= p <= np ->
      ((exists r, wres p = Ok r) /\
       subseq [Worker p APutResult; Worker p APutEnd; Worker p AExit0] s1) \/
+     ((exists e, wres p = Err e) /\ In (Worker p ARaise) s1) \/
      (exists c, In (Worker p (ADie c)) s1)) ->
   exec np wres s1 (init r0) = Run w m ->
+  (forall p, 1 <= p <= np -> pc (wks w p) <> WPutting) ->
   poll_bound np w <= n_master s2 ->
   exists o, exec np wres (s1 ++ s2) (init r0) = Fin o /\
     (forall r, o = Done r ->
        exists rs, Forall2 (fun p x => wres p = Ok x) (seq 1 np) rs /\ r = r0 ++ concat rs).
 Proof. exact @fair_loud. Qed.
-Print Assumptions C09_fair_loud_gather.
+Print Assumptions C09_fair_loud_gather_partial.
 
-Theorem C09_fair_loud : forall (A R : Type) (f : A -> res R) (args : list A) (ncpu : Z)
+Theorem C09_fair_loud_partial : forall (A R : Type) (f : A -> res R) (args : list A) (ncpu : Z)
     (s1 s2 : list action) (r0 : list R) (w : world) (m : mst),
   args <> [] -> (1 < ncpu)%Z ->
   mapM f (chunk args (Z.to_nat ncpu) 0) = Ok r0 ->
   exec (Z.to_nat ncpu - 1) (fun pid => mapM f (chunk args (Z.to_nat ncpu) pid)) s1 (init r0)
     = Run w m ->
   fair (Z.to_nat ncpu - 1) (fun pid => mapM f (chunk args (Z.to_nat ncpu) pid)) s1 ->
+  no_partial (Z.to_nat ncpu - 1) w ->
   poll_bound (Z.to_nat ncpu - 1) w <= n_master s2 ->
   exists o, parallelize f args ncpu (s1 ++ s2) = Some o /\
             (forall r, o = Done r -> mapM f args = Ok r).
 Proof. exact @parallelize_fair_loud. Qed.
-Print Assumptions C09_fair_loud.
+Print Assumptions C09_fair_loud_partial.
 
 (* a fair schedule leaves no child running *)
 Theorem C09_fair_quiescent : forall (R : Type) (np : nat) (wres : nat -> res (list R))
@@ -234,11 +252,14 @@ Print Assumptions C09_raising_worker_no_result.
 Theorem C09_order_facts :
   par_ord_ended_before_get = true /\ par_ord_died_before_all_ended = true /\
   par_ord_ended_before_log_get = true /\ par_ord_tasks_before_result = true /\
-  par_ord_status_nonblocking = true.
+  par_ord_status_nonblocking = true /\ par_ord_raise_log_nonblocking = true /\
+  par_worker_shape = true /\ par_hook_shape = true /\
+  par_n_queue_ctor = 3%Z /\ par_n_simple_queue_ctor = 0%Z /\ par_n_try = 3%Z.
 Proof.
   exact (conj K_par_ord_ended_before_get (conj K_par_ord_died_before_all_ended
         (conj K_par_ord_ended_before_log_get (conj K_par_ord_tasks_before_result
-         K_par_ord_status_nonblocking)))).
+        (conj K_par_ord_status_nonblocking (conj K_par_ord_raise_log_nonblocking
+        (conj K_par_worker_shape (conj K_par_hook_shape K_par_queue_ctors)))))))).
 Qed.
 Print Assumptions C09_order_facts.
 
@@ -246,21 +267,21 @@ Print Assumptions C09_order_facts.
    a fault-free run raises (the worker delivers and ends in between) *)
 Theorem C09_read_order_refuted :
   fault_free sched_late_flag /\
-  exec_gen 1 wres2 false true true true true sched_late_flag (init [0]) = Fin (Fail MissingResult) /\
+  exec_gen 1 wres2 false true true true true true sched_late_flag (init [0]) = Fin (Fail MissingResult) /\
   exists r, exec 1 wres2 (sched_late_flag ++ repeat Master 8) (init [0]) = Fin (Done r).
 Proof. exact late_flag_refuted. Qed.
 Print Assumptions C09_read_order_refuted.
 
 Theorem C09_log_read_order_refuted :
   fault_free sched_late_log_flag /\
-  exec_gen 1 wres2 true true false true true sched_late_log_flag (init [0]) = Fin (Fail LogIncomplete) /\
+  exec_gen 1 wres2 true true false true true true sched_late_log_flag (init [0]) = Fin (Fail LogIncomplete) /\
   exists r, exec 1 wres2 (sched_late_log_flag ++ repeat Master 8) (init [0]) = Fin (Done r).
 Proof. exact late_log_flag_refuted. Qed.
 Print Assumptions C09_log_read_order_refuted.
 
 (* result record put in a `finally` block: a partial list is returned *)
 Theorem C09_finally_refuted :
-  exec_gen 1 wres_raise true true true false true sched_finally (init [0]) = Fin (Done [0]) /\
+  exec_gen 1 wres_raise true true true false true true sched_finally (init [0]) = Fin (Done [0]) /\
   exec 1 wres_raise sched_finally (init [0]) = Fin (Fail ChildDied).
 Proof. exact finally_refuted. Qed.
 Print Assumptions C09_finally_refuted.
@@ -270,7 +291,7 @@ Print Assumptions C09_finally_refuted.
    proc.join() for ever; with the fix the call returns *)
 Theorem C09_status_block_refuted : forall n,
   exists w m,
-    exec_gen 1 wres2 true true true true false (sched_status_block ++ repeat Master n) (init [0]) = Run w m /\
+    exec_gen 1 wres2 true true true true false true (sched_status_block ++ repeat Master n) (init [0]) = Run w m /\
     ph m = Join /\ exitc (wks w 1) = None.
 Proof. exact status_block_refuted. Qed.
 Print Assumptions C09_status_block_refuted.
@@ -279,6 +300,20 @@ Theorem C09_status_fixed :
   exec 1 wres2 sched_status_block (init [0]) = Fin (Done [0; 1]).
 Proof. exact status_fixed. Qed.
 Print Assumptions C09_status_fixed.
+
+(* the worker waits for its log records queue when a task raised (code before fix
+   cdc2ef8): it never ends, its exit code stays None, the master polls for ever *)
+Theorem C09_raise_logs_refuted : forall n,
+  exists w m,
+    exec_gen 1 wres_raise true true true true true false (sched_raise_logs ++ repeat Master n) (init [0]) = Run w m /\
+    exitc (wks w 1) = None.
+Proof. exact raise_logs_refuted. Qed.
+Print Assumptions C09_raise_logs_refuted.
+
+Theorem C09_raise_logs_fixed :
+  exec 1 wres_raise (sched_raise_logs ++ repeat Master 3) (init [0]) = Fin (Fail ChildDied).
+Proof. exact raise_logs_fixed. Qed.
+Print Assumptions C09_raise_logs_fixed.
 
 (* SEEDS.  The RandomStateService of worker p is seeded with the p-th number
    drawn from the given rss (ncpu - 1 draws, in pid order), the master goes on
@@ -327,10 +362,11 @@ Example C09_ex_loud_hyp :
     exec 2 (fun pid => mapM (fun x => Ok x) (chunk [1; 2; 3]%Z 3 pid))
          [Worker 2 APutResult; Worker 1 (ADie (-9)%Z); Master; Worker 2 APutEnd; Worker 2 AExit0]
          (init [1%Z]) = Run w m /\
-    quiescent 2 w /\ poll_bound 2 w = 23.
+    quiescent 2 w /\ no_partial 2 w /\ poll_bound 2 w = 23.
 Proof.
-  eexists; eexists. split; [vm_compute; reflexivity|]. split; [|vm_compute; reflexivity].
-  intros p Hp. assert (Hc : p = 1 \/ p = 2) by lia. destruct Hc as [->| ->]; vm_compute; discriminate.
+  eexists; eexists. split; [vm_compute; reflexivity|]. split; [|split; [|vm_compute; reflexivity]].
+  - intros p Hp. assert (Hc : p = 1 \/ p = 2) by lia. destruct Hc as [->| ->]; vm_compute; discriminate.
+  - intros p Hp. assert (Hc : p = 1 \/ p = 2) by lia. destruct Hc as [->| ->]; vm_compute; discriminate.
 Qed.
 
 Example C09_ex_died :
@@ -346,7 +382,18 @@ Example C09_ex_fair :
        [Worker 2 APutResult; Master; Worker 1 (ADie (-9)%Z); Worker 2 APutEnd; Master; Worker 2 AExit0].
 Proof.
   intros p Hp. assert (Hc : p = 1 \/ p = 2) by lia. destruct Hc as [->| ->].
-  - right. exists (-9)%Z. cbn. auto.
+  - right. right. exists (-9)%Z. cbn. auto.
   - left. split; [eexists; vm_compute; reflexivity|].
     apply sub_take, sub_skip, sub_skip, sub_take, sub_skip, sub_take, sub_nil.
+Qed.
+
+(* a fair schedule with a raising worker (worker 1: its task raises) *)
+Example C09_ex_fair_raise :
+  fair 1 wres_raise [Worker 1 (APutLog 7%Z); Master; Worker 1 ARaise] /\
+  exec 1 wres_raise ([Worker 1 (APutLog 7%Z); Master; Worker 1 ARaise] ++ repeat Master 15) (init [0])
+    = Fin (Fail ChildDied).
+Proof.
+  split; [|vm_compute; reflexivity].
+  intros p Hp. assert (p = 1) by lia. subst. right. left.
+  split; [eexists; reflexivity|cbn; auto].
 Qed.
